@@ -427,8 +427,14 @@ def execute(scenario, chooser):
         sim, out = world.run_sim(main, chooser, gran='sync', step_cap=400000)
     res = {'violations': viol, 'digest': sim.digest(),
            'switch_digest': sim.switch_digest(), 'sim_time': sim.now,
-           'steps': sim.steps, 'faults': dict(sim.net.fired) if sim.net
-           else {}, 'probes': stats, 'deviations': list(sim.deviations),
+           'steps': sim.steps, 'faults': dict(
+               dict(sim.net.fired) if sim.net else {},
+               failed_discovery=stats.get('failed_discover', 0),
+               population_change=sum(1 for h in histories for s in h
+                                     if s[0] == 'pop'),
+               clock_jump=sum(1 for h in histories for s in h
+                              if s[0] == 'advance')),
+           'probes': stats, 'deviations': list(sim.deviations),
            'harness_error': None,
            'shape': family + ':' + ','.join(s[0] for s in histories[0]),
            'nontrivial': info['changes'] >= 2}
